@@ -227,3 +227,42 @@ func VHC18Shapes() {
 	}
 	vh.Reach("shape evaluated")
 }
+
+var c18Flags = []string{"", "-", "0"}
+
+// VHC18Two: two directives in one format, each with its own flag (none, '-', '0'),
+// width and kind: padding of one directive must not influence the other.
+func VHC18Two() {
+	s1 := vh.Bytes("s1", 1)
+	s2 := vh.Bytes("s2", 1)
+	doc := map[string]any{"a": s1, "b": s2, "n": 1.5}
+	kinds := []string{"s", "f", "v"}
+	k1, k2 := kinds[vh.Choose("k1", 3)], kinds[vh.Choose("k2", 3)]
+	f1, f2 := c18Flags[vh.Choose("f1", 3)], c18Flags[vh.Choose("f2", 3)]
+	w1, w2 := 2+vh.Choose("w1", 3), 2+vh.Choose("w2", 3)
+	arg := func(k, which string) (string, string) {
+		if k == "f" {
+			return "$.n", "1.5"
+		}
+		if which == "a" {
+			return "$.a", s1
+		}
+		return "$.b", s2
+	}
+	a1, r1 := arg(k1, "a")
+	a2, r2 := arg(k2, "b")
+	format := "[%" + f1 + itoa(w1) + k1 + "][%" + f2 + itoa(w2) + k2 + "]"
+	_, k, out := evalExpr("printf('"+format+"', "+a1+", "+a2+")", doc)
+	pad := func(r, f string, w int) string {
+		switch f {
+		case "-":
+			return c18Pad(r, -w, false)
+		case "0":
+			return c18Pad(r, w, true)
+		}
+		return c18Pad(r, w, false)
+	}
+	vh.Reach("two directives evaluated")
+	vh.Assert(k == OK, "C18: two well-formed directives must not fail")
+	vh.Assert(out == "["+pad(r1, f1, w1)+"]["+pad(r2, f2, w2)+"]", "C18: each directive is padded by its own flag and width: "+format)
+}
